@@ -25,17 +25,17 @@ type Obligation struct {
 
 type Check struct {
 	typesMemo map[string]*Func
-	P     *Prog
-	Prop  string
-	Tier  string
-	Obls  []*Obligation
-	Notes []string
-	Sites int // sites examined (evaluations)
-	start time.Time
-	info  map[string]interface{}
-	assum map[string]bool
-	fu    *feeUnits
-	cw    []*ctxWrite
+	P         *Prog
+	Prop      string
+	Tier      string
+	Obls      []*Obligation
+	Notes     []string
+	Sites     int // sites examined (evaluations)
+	start     time.Time
+	info      map[string]interface{}
+	assum     map[string]bool
+	fu        *feeUnits
+	cw        []*ctxWrite
 }
 
 func (c *Check) pos(p token.Pos) string { return c.P.pos(p) }
